@@ -43,18 +43,28 @@ func c03Check(t vt.TB, rec *stats.Recorder, c sm2gen.VerifyCase) (want bool) {
 	return
 }
 
-func TestVerif_C03_Iff(t *testing.T) {
+// verifProp_C03_Iff builds the property (shared by the rapid test and the native fuzz target).
+func verifProp_C03_Iff() func(*rapid.T) {
 	rec := stats.Get("C03", "iff")
 	rec.Rule("rapid: (pubx,puby,e,r,s) from: valid signatures (uniform and with short r/s/t); single-bit flips of each field; length changes (drop/prepend/append/empty/strip leading zeros) of each field; triples SOLVED to satisfy the verification equation while breaking one side condition: r=0, s=0, r+s=n, [s]G+[t]P=O with e=r, r+n, s+n (when they fit in 32 bytes), key with x+p (tiny x found by square root), y>=p, off-curve, (x,p-y), (0,0); e+n (stays valid); r or s >= n; r,s swapped; garbage. Oracle: VerifyHashed's bool == sm2ref.Verify (GM/T 0003.2 §7, all side conditions); error only with false; no panic; inputs unmodified. Non-trivial: every constructed class (everything except plain valid and garbage), or the reference accepts; distinct by the five strings.")
-	t.Cleanup(stats.FlushAll)
-	rapid.Check(t, func(t *rapid.T) {
+	return func(t *rapid.T) {
 		c := sm2gen.DrawVerifyCase(t)
 		want := c03Check(t, rec, c)
 		rec.Case(stats.Hash(c.Px, c.Py, c.E, c.R, c.S), c.Special || want, "class:"+c.Class, fmt.Sprintf("accept:%v", want))
 		if rec.WantSample(c.Class) {
 			rec.Sample(c.Class, map[string]interface{}{"class": c.Class, "px": stats.Hex(c.Px), "py": stats.Hex(c.Py), "e": stats.Hex(c.E), "r": stats.Hex(c.R), "s": stats.Hex(c.S), "standard_accepts": want})
 		}
-	})
+	}
+}
+
+func TestVerif_C03_Iff(t *testing.T) {
+	t.Cleanup(stats.FlushAll)
+	rapid.Check(t, verifProp_C03_Iff())
+}
+
+// FuzzVerif_C03_Iff drives the same property with Go's coverage-guided fuzzer (thorough tier).
+func FuzzVerif_C03_Iff(f *testing.F) {
+	f.Fuzz(rapid.MakeFuzz(verifProp_C03_Iff()))
 }
 
 // All 5x256 single-bit flips of a few valid signatures (complete per signature).
